@@ -23,6 +23,11 @@ func allLayersHaveSameTypeRateChannelsExtType(c *mpeg4audio.StreamMuxConfig) boo
 				continue
 			}
 
+			// the layer uses the same config of the previous one
+			if l.AudioSpecificConfig == nil {
+				continue
+			}
+
 			if l.AudioSpecificConfig.Type != typ ||
 				l.AudioSpecificConfig.SampleRate != rate ||
 				l.AudioSpecificConfig.ChannelConfig != channelConfig ||
